@@ -10,7 +10,9 @@ echo "# seeded change -> target check, quick tier, seed ${VERIF_SEED:-0}, /repo 
 for d in seeded/$pat/; do
   n=$(basename "$d"); id=${n%%-*}
   [ -f "$d/patch.diff" ] || continue
-  res=$(tools/try_patch.sh "$d/patch.diff" "$id" 2>&1 | tail -1)
+  # a change whose context was touched by a later fix commit is kept in a second, re-based form as well
+  pf="$d/patch.diff"; [ -f "$d/patch.rebased.diff" ] && pf="$d/patch.rebased.diff"
+  res=$(tools/try_patch.sh "$pf" "$id" 2>&1 | tail -1)
   echo "$n: $res" | tee -a "$tmp"
 done
 if [ "$pat" = "*" ]; then mv "$tmp" "$out"; else cat "$tmp" > "$out.partial"; rm -f "$tmp"; fi
